@@ -8,6 +8,12 @@ COMMON_TRUSTED = [
 ]
 
 CONF = {
+    "C12": {
+        "n": {"quick": 600, "thorough": 9000},
+        "shard": 300,
+        "trusted_base": ["text/template + sprig: the model covers a tiny template language (literal text, {{ .key }}, constant / eq / lt conditions); yaml.v3 decoding of action trees"],
+        "assumptions": ["sibling order values distinct (sortActionNames uses an unstable sort: ties are unspecified)", "conditions are constant or read data not written by the same action"],
+    },
     "C17": {
         "n": {"quick": 640, "thorough": 8000},
         "shard": 320,
